@@ -41,9 +41,9 @@ type c18Call struct {
 	Input   []byte
 	Chunk   int
 	EOFTog  bool
-	FailAt  int // -1 none
-	TruncAt int // -1 none
-	OnceAt  int // -1 none: a transient read error at this offset
+	FailAt  int  // -1 none
+	TruncAt int  // -1 none
+	OnceAt  int  // -1 none: a transient read error at this offset
 	ErrTemp bool // the injected error calls itself temporary / a timeout
 	ErrData bool // the sticky error arrives together with the last bytes before it
 }
